@@ -54,6 +54,16 @@ theorem C12_plain_writes :
     (Gen.nodeWritesN.filter (fun w => mem readReachable w.1)).all
       (fun w => w.2.2 == "fresh:literal" || allowedSharedWrites.contains (nameOf w.1, w.2.1, w.2.2)) = true := by decide +kernel
 
+/-- (1d) no read-reachable function writes package-level state — no assignment to a package-level variable, no entry of a
+package-level map or slice, no field of a package-level struct, no `delete`: there is no memo table, lazily built index or
+shared scratch buffer behind the read-only API. The only writers of package-level state are the three registration
+functions, which are not read-reachable. -/
+theorem C12_no_package_level_writes :
+    (Gen.globalWrites.filter (fun g => mem readReachable g.1)) = [] := by decide +kernel
+
+theorem C12_package_level_writers :
+    (Gen.globalWrites.map (fun g => g.2.1)).eraseDups = ["AddConstant", "AddFunction", "AddOperation"] := by decide +kernel
+
 theorem C12_arraynode_gets_clones :
     (Gen.constructorArgs.filter (fun a => reachableName a.1 && a.2.1 == "ArrayNode")).all
       (fun a => a.2.2 == "clone(slice)") = true := by decide +kernel
